@@ -3,6 +3,7 @@ import Sop.Lemmas.CommitWitness
 import Sop.Lemmas.CommitPhase1
 import Sop.Lemmas.CommitSuccess
 import Sop.Lemmas.CommitPhase2Fail
+import Sop.Lemmas.CommitPhase2After
 /-!
 # C01 — a committed transaction's changes appear all-or-nothing across every store
 
@@ -108,16 +109,14 @@ theorem C01_failed_phase1_keeps_every_node (s0 : State) (w : WS) (fresh0 : List 
       (commit w n { s := s0, tid := tid, fault := fault, fresh := fresh0 }).2.s.view lid = s0.view lid :=
   commit_phase1_failure_keeps_views pre fault tid n r1 hf
 
-/-- **The error half of C01 at node level, both phases**: whenever `Commit` returns an error — the failure may be in
-phase 1, in the live rollback, in phase 2's log write or in the flip write failing without effect, and further
-failures may hit the error handling itself — every node that was loadable before is unchanged. `_partial`: the one
-fault not covered is a `failAfter` on the flip write (`registry.UpdateNoLocks` reporting an error after it took
-effect); there the priority rollback restores the logged images, which needs "the single fault is spent" and is
-checked by the correspondence run on every explored commit, not proved. The full statement `Statement_C01_err` also
-speaks of the store count, which is finding C01-F1. -/
-theorem C01_failed_commit_keeps_every_node_partial (s0 : State) (w : WS) (fresh0 : List (UUID × UUID))
+/-- **The error half of C01 at node level, for every fault**: whenever `Commit` returns an error — the failure may
+be in phase 1, in the live rollback, in phase 2's log write, in the flip write failing without effect, or in the flip
+write failing AFTER its effect (then the priority rollback restores the logged pre-flip images: the node keys are still
+held, the priority log exists, and the run's one fault being spent the restoring write succeeds); further failures
+may hit the error handling itself in all but the last case — every node that was loadable before is unchanged. What
+the full statement `Statement_C01_err` says beyond this is the store count, which is finding C01-F1. -/
+theorem C01_failed_commit_keeps_every_node (s0 : State) (w : WS) (fresh0 : List (UUID × UUID))
     (pre : Pre s0 w fresh0) (pre2 : Pre2 s0 w fresh0) (fault : Option Fault) (tid : Tid) (n : Nat)
-    (hnf : ¬ ∃ f, fault = some f ∧ f.cls = .regUpdateNoLocks ∧ f.kind = .failAfter)
     (herr : (commit w n { s := s0, tid := tid, fault := fault, fresh := fresh0 }).1 = .err) :
     ∀ lid, (s0.view lid).isSome →
       (commit w n { s := s0, tid := tid, fault := fault, fresh := fresh0 }).2.s.view lid = s0.view lid := by
@@ -131,7 +130,14 @@ theorem C01_failed_commit_keeps_every_node_partial (s0 : State) (w : WS) (fresh0
       unfold commit at herr
       simp only [h1, h2] at herr
       cases herr
-    | error r2 => exact commit_phase2_failure_keeps_views pre pre2 fault tid n r1 r2 hnf h1 h2
+    | error r2 => exact commit_phase2_failure_keeps_views_all pre pre2 fault tid n r1 r2 h1 h2
+
+/-- the flip-failure witness: the flip write of the split transaction takes effect and reports an error; `Commit`
+returns an error and node 1 is back at (blob 1, version 1) -/
+example :
+    let r := commit Witness.wSplit 30 { s := Witness.s0, tid := 1, fault := some ⟨.regUpdateNoLocks, 2, .failAfter⟩, fresh := [(1, 9)] }
+    r.1 = .err ∧ r.2.s.view 1 = some (1, 1) := by
+  refine ⟨?_, ?_⟩ <;> decide +kernel
 
 /-- **The success half of C01 at node level.** If `Commit` returns ok — under no fault or under any single fault it
 tolerates — then (1) the handles the transaction reserved are exactly the write set's updated nodes, at the versions
